@@ -508,6 +508,9 @@ pub fn judge<'f>(s: &mut Sess, _fs: &'f Fs, _hs: &mut [Option<H<'f>>], op: &Op, 
                 return;
             }
             s.stats_armed = true;
+            if !s.fsinfo_trusted {
+                s.counters.fsinfo_exception_armed += 1;
+            }
             s.count_known = true;
             if let Some(p) = &s.prev {
                 let (free, total, cs) = out.stats;
@@ -544,9 +547,9 @@ pub fn judge<'f>(s: &mut Sess, _fs: &'f Fs, _hs: &mut [Option<H<'f>>], op: &Op, 
     }
 }
 
-/// C13: a read-only session issues no device write; sole exception: FS-info sector on FAT32 at unmount after a
+/// C13: a read-only session issues no device write; sole exception: FS-info sector on FAT32 after a
 /// statistics query when the library had no trusted free count.
-pub fn check_readonly_writes(s: &mut Sess, op: &Op, log: &[Ev], unmounting: bool) {
+pub fn check_readonly_writes(s: &mut Sess, op: &Op, log: &[Ev], _unmounting: bool) {
     for e in log {
         if e.kind != EvKind::Write {
             continue;
@@ -554,7 +557,9 @@ pub fn check_readonly_writes(s: &mut Sess, op: &Op, log: &[Ev], unmounting: bool
         let mut allowed = false;
         if let Some(p) = &s.prev {
             let g = &p.g;
-            if unmounting && g.fat_bits == 32 && s.stats_armed && !s.fsinfo_trusted {
+            // the recomputed count "may be stored in that sector": when (at the query, at a later call, at unmount) is
+            // the implementation's choice
+            if g.fat_bits == 32 && s.stats_armed && !s.fsinfo_trusted {
                 let fo = g.fsinfo_sector * g.bps;
                 if e.off >= fo && e.off + e.len.max(1) <= fo + g.bps {
                     allowed = true;
